@@ -282,6 +282,16 @@ class SessionModel:
             if self._is(res, 'WebSocketDisconnected'):
                 self.phase = CLOSED
             return
+        if op.get('unser'):
+            # accepted, live socket, but the media handler cannot serialize the object: the handler's error is
+            # reported, nothing is sent, nothing changes
+            self.hit(name + '.unserializable')
+            if attempts:
+                self.bad('event-on-refused-op', op=name, why='media not serializable', events=[a[1] for a in attempts])
+            if res[0] != 'exc' or self._is(res, 'WebSocketDisconnected', 'OperationNotAllowed'):
+                self.bad('wrong-error', op=name, why='media not serializable', want=['the media handler error'],
+                         got=_show(res))
+            return
         if bad_type:
             self.hit(name + '.bad-type')
             if attempts:
